@@ -4,31 +4,45 @@
 use vstd::prelude::*;
 verus! {
 //@ include units/handle_common.rs
-pub assume_specification<'a, 'b, T: ?Sized>[ <std::sync::RwLockWriteGuard<'a, T> as core::ops::DerefMut>::deref_mut ](g: &'b mut std::sync::RwLockWriteGuard<'a, T>) -> (r: &'b mut T);
+pub assume_specification<'a, 'b, T: ?Sized>[ <std::sync::RwLockWriteGuard<'a, T> as core::ops::DerefMut>::deref_mut ](g: &'b mut std::sync::RwLockWriteGuard<'a, T>) -> (r: &'b mut T)
+    ensures same_val::<T>(&*final(r), wguard_final(old(g)));
 
+pub uninterp spec fn log_max_after() -> log::LevelFilter;
 pub mod logger_handle {
 //@ include units/handle_types.rs
+    broadcast use ax_same_val;
 
     impl LogSpecification {
         pub uninterp spec fn upd_ok(o: LogSpecification) -> bool;
         //@ sig src/log_specification.rs impl LogSpecification / fn update_from
         //@   props C05
         //@   req[update_from.perm] LogSpecification::upd_ok(other)
+        //@   ens *final(self) == other
     }
     impl WritersHandle {
         pub uninterp spec fn rec_ok(l: log::LevelFilter) -> bool;
+        /// prophecy-style oracle (A11): the log facade's max level after the call; `reconfigure(l)` sets it to
+        /// max(l, the additional writers' ceilings) = reconf_spec(self, l) (decided in unit `handle_d`)
+        pub uninterp spec fn reconf_spec(&self, l: log::LevelFilter) -> log::LevelFilter;
         //@ sig src/logger_handle.rs impl WritersHandle / fn reconfigure
         //@   props C05,C02
         //@   req[reconfigure.perm] WritersHandle::rec_ok(max_level)
+        //@   ens log_max_after() == self.reconf_spec(max_level)
     //@ fn src/logger_handle.rs impl WritersHandle / fn set_new_spec
     //@   ret r
     //@   props C05,C02
-    //@   rule R3 1
+    //@   rule R3 *
     //@   req[WritersHandle::set_new_spec.pre.upd] forall|o: LogSpecification| #[trigger] LogSpecification::upd_ok(o) <==> o == new_spec
     //@   req[WritersHandle::set_new_spec.pre.rec] forall|l: log::LevelFilter| #[trigger] WritersHandle::rec_ok(l) <==> l == new_spec.max_level_spec()
     //@   ens[WritersHandle::set_new_spec.post.ok] r is Ok
+    //@   ens[WritersHandle::set_new_spec.post.written] r is Ok ==> self.active_after() == new_spec
+    //@   ens[WritersHandle::set_new_spec.post.gate] r is Ok ==> log_max_after() == self.reconf_spec(new_spec.max_level_spec())
+    //@   count 1 .write()
+    //@   count 1 self.reconfigure(
     //@   canary
     }
 }
 }
+// plain-Rust glue outside verus! (never executed, not verified): the shim has the real type's Display so that code using it still parses
+impl std::fmt::Display for log_specification::LogSpecification { fn fmt(&self, _f: &mut std::fmt::Formatter) -> std::fmt::Result { Ok(()) } }
 fn main() {}
